@@ -149,6 +149,14 @@ func findHarnesses(p *Program, prop, only string, tier int, cfgs map[string]harn
 			if c.Solver != "" {
 				h.Solver = c.Solver
 			}
+			// GOSYM_SOLVER / GOSYM_SOLVER_LIA: run the same queries on another
+			// solver (cross-check of the back ends, DESIGN.md section 2.3)
+			if ov := os.Getenv("GOSYM_SOLVER"); ov != "" && !strings.HasSuffix(h.Solver, "-lia") {
+				h.Solver = ov
+			}
+			if ov := os.Getenv("GOSYM_SOLVER_LIA"); ov != "" && strings.HasSuffix(h.Solver, "-lia") {
+				h.Solver = ov
+			}
 			if c.TimeoutMs != 0 {
 				h.TimeoutMs = c.TimeoutMs
 			}
